@@ -63,13 +63,15 @@ TokWith(a, sg, alt, rep) == [Tok(a, <<StrM("typ", "JWT")>>, Pm, sg) EXCEPT !.alt
 Verifies(k, a) ==
   { VerifyOp(TokWith(a, sg, "none", r)) : sg \in SigClasses(k, a), r \in 1..Reps }
   \cup { VerifyOp(TokWith(a, S("valid", a, k), alt, r)) : alt \in Alters, r \in 1..Reps }
+  \* re-targeted to "no algorithm": header alg none with an empty third segment, and with the genuine signature kept
+  \cup { VerifyOp(TokWith("none", sg, "none", 1)) : sg \in {EmptySig, S("valid", a, k)} }
 
 \* one script per (pair, provider, route, signature class): short cases, so that one
 \* rejected case does not hide another class
 Setup(k, a, p, route) ==
   <<OpsOp(p), LoadOp(<<IF route = "attr" THEN [k EXCEPT !.alg = a] ELSE k>>), CNewOp,
     IF route = "attr" THEN CSetKeyOp("none", 0) ELSE IF k.alg = NONE THEN CSetKeyOp(a, 0) ELSE CSetKeyOp("none", 0)>>
-Routes == IF Quick THEN {"explicit"} ELSE {"explicit", "attr"}
+Routes == {"explicit", "attr"}
 C01Scripts ==
   UNION { { Setup(ka[1], ka[2], p, rt) \o <<v>> : v \in Verifies(ka[1], ka[2]) }
           : ka \in Pairs, p \in Providers, rt \in Routes }
